@@ -115,7 +115,13 @@ def gen_training_scenario(rng, *, max_epochs=12, crash=False):
                     vals.append(rng.choice(["a", "bc", "x_y", "tok-1", "Z"]))
             ents.append({"name": f"ent{i}", "type": t, "fmt": fmt, "values": vals})
     sc["entries"] = ents
-    sc["bufsize"] = rng.choice([1, 64, 512, 1 << 16, 1 << 16])
+    sc["bufsize"] = rng.choice([1, 512, 4096, 1 << 16, 1 << 16, 1 << 16])
+    if sc["bufsize"] == 1 and n > 4:
+        # every torch.save write() is its own crash point (~90 per update): keep those jobs short
+        n = 4
+        sc["metrics"] = sc["metrics"][:n]
+        for ent in sc["entries"]:
+            ent["values"] = ent["values"][:n]
     sc["faults"] = []
     sc["restarts"] = []
     return sc
